@@ -343,10 +343,11 @@ impl SwiftField for Field52AccountServicingInstitution {
                 let field = Field52C::parse(value)?;
                 Ok(Field52AccountServicingInstitution::C(field))
             }
-            _ => {
-                // No variant specified, fall back to default parse behavior
-                Self::parse(value)
-            }
+            // No option letter given: fall back to content-based detection
+            None => Self::parse(value),
+            Some(other) => Err(ParseError::InvalidFormat {
+                message: format!("Field 52 has no option '{}'", other),
+            }),
         }
     }
 
@@ -407,10 +408,11 @@ impl SwiftField for Field52OrderingInstitution {
                 let field = Field52D::parse(value)?;
                 Ok(Field52OrderingInstitution::D(field))
             }
-            _ => {
-                // No variant specified, fall back to default parse behavior
-                Self::parse(value)
-            }
+            // No option letter given: fall back to content-based detection
+            None => Self::parse(value),
+            Some(other) => Err(ParseError::InvalidFormat {
+                message: format!("Field 52 has no option '{}'", other),
+            }),
         }
     }
 
@@ -491,10 +493,11 @@ impl SwiftField for Field52CreditorBank {
                 let field = Field52D::parse(value)?;
                 Ok(Field52CreditorBank::D(field))
             }
-            _ => {
-                // No variant specified, fall back to default parse behavior
-                Self::parse(value)
-            }
+            // No option letter given: fall back to content-based detection
+            None => Self::parse(value),
+            Some(other) => Err(ParseError::InvalidFormat {
+                message: format!("Field 52 has no option '{}'", other),
+            }),
         }
     }
 
@@ -566,10 +569,11 @@ impl SwiftField for Field52DrawerBank {
                 let field = Field52D::parse(value)?;
                 Ok(Field52DrawerBank::D(field))
             }
-            _ => {
-                // No variant specified, fall back to default parse behavior
-                Self::parse(value)
-            }
+            // No option letter given: fall back to content-based detection
+            None => Self::parse(value),
+            Some(other) => Err(ParseError::InvalidFormat {
+                message: format!("Field 52 has no option '{}'", other),
+            }),
         }
     }
 
